@@ -11,18 +11,30 @@ class ApiBoom(Exception):
     pass
 
 
-def make_update(n: int, target_size: int):
-    """A STEP SUCCEED update whose serialized size (ExecutionState._calculate_operation_size) is exactly target_size."""
-    from aws_durable_execution_sdk_python.lambda_service import OperationAction, OperationSubType, OperationType, OperationUpdate
-    from aws_durable_execution_sdk_python.state import ExecutionState, QueuedOperation
+def wire_size(update) -> int:
+    """Size of an update as the request body carries it (default JSON encoding, non-ASCII escaped) - measured by the harness,
+    not by the SDK's own estimator."""
+    import json
+    return 0 if update is None else len(json.dumps(update.to_dict()).encode("utf-8"))
 
-    def mk(pad):
+
+def make_update(n: int, target_size: int, unicode_text: bool = False):
+    """A STEP SUCCEED update whose serialized size is target_size (exactly for ASCII payloads; the nearest size not above it that
+    6-byte escapes allow for non-ASCII ones)."""
+    from aws_durable_execution_sdk_python.lambda_service import OperationAction, OperationSubType, OperationType, OperationUpdate
+
+    def mk(pad, tail=0):
+        text = ("\u00e9" * pad + "x" * tail) if unicode_text else "x" * pad
         return OperationUpdate(operation_id=f"op-{n:03d}", operation_type=OperationType.STEP, action=OperationAction.SUCCEED,
-                               sub_type=OperationSubType.STEP, payload="x" * pad)
-    base = ExecutionState._calculate_operation_size(QueuedOperation(mk(1), None)) - 1
-    pad = max(1, target_size - base)
-    u = mk(pad)
-    return u, ExecutionState._calculate_operation_size(QueuedOperation(u, None))
+                               sub_type=OperationSubType.STEP, payload=text)
+    if unicode_text:
+        base = wire_size(mk(0, 1)) - 1
+        room = max(1, target_size - base)
+        u = mk(max(1, room // 6), room % 6 if room >= 6 else 0)
+    else:
+        base = wire_size(mk(1)) - 1
+        u = mk(max(1, target_size - base))
+    return u, wire_size(u)
 
 
 def run_batcher(plan: dict, strategy, max_steps=40000):
@@ -82,7 +94,7 @@ def run_batcher(plan: dict, strategy, max_steps=40000):
             st["n"] += 1
             i = st["n"]
             item_of_qop[id(item)] = i
-            sz = st_mod.ExecutionState._calculate_operation_size(item)
+            sz = wire_size(item.operation_update)        # independent of the SDK's own size estimate
             sizes[i] = sz
             syncs[i] = item.completion_event is not None
             if item.completion_event is not None:
@@ -166,7 +178,7 @@ def run_batcher(plan: dict, strategy, max_steps=40000):
                 if size == "empty":
                     upd = None
                 else:
-                    upd, _ = make_update(counter[0], size)
+                    upd, _ = make_update(counter[0], size, unicode_text=bool(plan.get("unicode")) and counter[0] % 2 == 1)
                 try:
                     state.create_checkpoint(upd, is_sync=bool(sync))
                     i = st["last_put"][pname]
@@ -224,5 +236,6 @@ def random_plan(rng: random.Random, allow_oversize=True, allow_fail=True):
             "window": rng.choice([0.0, 0.05, 0.3, 1.0]),
             "fail_at": (rng.choice([1, 2, 3]) if (allow_fail and rng.random() < 0.35) else None),
             "page_fail_at": (rng.choice([1, 2, 3]) if (allow_fail and rng.random() < 0.2) else None),
+            "unicode": rng.random() < 0.4,      # every other update carries non-ASCII text (6 wire bytes per character)
             "stagger": [[rng.choice([0.0, 0.0, 0.05, 0.2, 1.1])] for _ in range(nprod)]}
     return plan
